@@ -1149,19 +1149,23 @@ func (m *membersPool) MembersLen(node base.Address) int {
 }
 
 func (m *membersPool) Set(member Member) (added bool) {
-	_, _, _ = m.addrs.Set(memberid(member.Addr()), func(_ Member, addrfound bool) (Member, error) {
-		var members []Member
+	id := memberid(member.Addr())
 
+	_, _, _ = m.addrs.Set(id, func(old Member, addrfound bool) (Member, error) {
 		added = !addrfound
 
-		switch i, f := m.members.Value(member.Address().String()); {
-		case !f, i == nil:
-		default:
-			members = i
+		if addrfound && old != nil {
+			// NOTE the address is taken over; the previous member of this address is gone
+			m.removeNodeMember(old.Address().String(), id)
 		}
 
-		members = append(members, member)
-		m.members.SetValue(member.Address().String(), members)
+		_, _, _ = m.members.Set(member.Address().String(), func(members []Member, _ bool) ([]Member, error) {
+			nmembers := make([]Member, len(members)+1)
+			copy(nmembers, members)
+			nmembers[len(members)] = member
+
+			return nmembers, nil
+		})
 
 		return member, nil
 	})
